@@ -313,4 +313,34 @@ example :
       { status := 429, ran := false, limit := none, remaining := none, reset := none, retryAfter := some 4731 } = false := by
   decide
 
+/-! ### the sliding-window store's cleanup loop is unobservable -/
+
+/-- **an entry the cleanup loop drops answers every later call like no entry at all** (window ≥ 1 s, any counts):
+    for every call at or after the sweep, `GetCounts`, `Incr` and `IncrAndGetCounts` report and store the same with
+    the entry as without it — the entry's window is at least two windows back, so nothing of it is carried over.
+    (True since fix 4e746c8: as shipped a roll carried the old count over however long the entry had been idle.) -/
+theorem window_cleanup_unobservable (W : Nat) (hW : 1 ≤ W) (w : Win) (nowSec t : Nat)
+    (hdrop : dropsWin W nowSec w = true) (ht : nowSec * nsPerSec ≤ t) :
+    getCounts W (some w) t = getCounts W none t ∧ incr W (some w) t = incr W none t := by
+  have hnext := lemma_ws_next W t hW
+  unfold dropsWin at hdrop
+  simp only [Bool.and_eq_true, decide_eq_true_eq] at hdrop
+  have hns : (1 : Nat) ≤ nsPerSec := by unfold nsPerSec; omega
+  have h2 : (w.ws + 2 * W) * nsPerSec ≤ t := Nat.le_trans (Nat.mul_le_mul_right _ hdrop.2) ht
+  have hgap : w.ws + W < windowStart W t := by
+    have : (w.ws + 2 * W) * nsPerSec < (windowStart W t + W) * nsPerSec := Nat.lt_of_le_of_lt h2 hnext
+    have := Nat.lt_of_mul_lt_mul_right this
+    omega
+  have hroll : w.ws < windowStart W t := by omega
+  unfold getCounts incr carried
+  simp only [hroll, hgap, if_true, and_self]
+
+/-- as shipped (before the idle-gap test) the sweep WAS observable: it made the store forget a count that a roll
+    would have carried over — limit 2, window 2 s, an entry with 5 counted requests dropped after 3 hours -/
+example :
+    dropsWin 2 20000 { cur := 5, prev := 0, ws := 10 } = true ∧
+    (getCountsAsIs 2 (some { cur := 5, prev := 0, ws := 10 }) (20000 * nsPerSec)).prev = 5 ∧
+    (getCounts 2 (some { cur := 5, prev := 0, ws := 10 }) (20000 * nsPerSec)).prev = 0 ∧
+    (getCounts 2 none (20000 * nsPerSec)).prev = 0 := by decide
+
 end Rivaas.C16
